@@ -323,6 +323,19 @@ def explore(h, known=None, collect_validation=2, profile_root=None):
                 if len(extra) < 64:
                     work.append((pc[:i], extra + [neg], i))
                 continue
+            if kind == "pin-finite":
+                if len(extra) < 40:
+                    work.append((pc[:i], extra + [neg], i))
+                else:
+                    res.pin_chains_cut += 1
+                continue
+            if kind == "pin-str":
+                # concretised strings: sampled, with a longer exclusion chain than numbers (no boundary values to try)
+                if len(extra) < 16:
+                    work.append((pc[:i], extra + [neg], i))
+                else:
+                    res.pin_chains_cut += 1
+                continue
             if kind == "pin":
                 # a flipped pin is a persistent constraint of all descendants; the position stays open.
                 # Concretised values with an unbounded domain are *sampled*: the chain of exclusions is cut at
